@@ -311,7 +311,7 @@ theorem exec_insertRowStep_av (n : Nat) (env : Env) (b table alias : String) (tc
     simp only [avConflictEnv] at hsets
     simp only [Option.map_some, exec_bind, exec_pure]
     rw [conflictUpdate]
-    simp only [exec_bind, exec_typeEnv, exec_get, hguard, Bool.false_eq_true, if_false, exec_pure, exec_lockVersion_av hT,
+    simp only [exec_bind, exec_typeEnv, exec_get, hguard, Bool.false_eq_true, if_false, exec_pure, exec_heldByOther_solo s hsolo, exec_lockVersion_av hT,
       Bool.not_true, hv, hsets, exec_fireBefore_av _ _ _ _ .update (by simp), exec_getTable hT1, exec_checkConstraints_av,
       uniques_av, hfc, exec_checkForeignKeys_av, exec_updateVersion_av hT1, withTable_withTable_av, withTable_xid, withTable_cid,
       withTable_latestView, exec_getTable hT2, exec_queueAfter_av,
